@@ -224,6 +224,14 @@ class Gen:
         P.add(TaskClass(Tn, [p0, p1], place, [Flow('W', 'READ', [Dep('in', MEM(place))])], prio=self.prio('o', 'i'), features=feats))
         return Tn
 
+    def empty(self):
+        """a class with an empty execution space (zero tasks)"""
+        P = self.P
+        En = self.cname('E')
+        base = P.alloc_keys(1)
+        P.add(TaskClass(En, [Param('k', 'range', Rng(0, self.const(-1)))], base, [Flow('X', 'READ', [Dep('in', MEM(base))])]))
+        return En
+
     def gather(self):
         """counter-mode control gather: many producers -> one collector over a 2D range, then a fan-out of CTL"""
         r = self.r; P = self.P
@@ -247,15 +255,17 @@ PROFILES = {
     'enum':  (dict(chain=3, fanout=3, reduce=1, wave=1, indep=3, gather=2), (1, 3)),
     'route': (dict(chain=2, fanout=4, reduce=3, wave=3, indep=0, gather=1), (1, 3)),
     'small': (dict(chain=2, fanout=2, reduce=1, wave=1, indep=1, gather=1), (1, 2)),
+    'tiny':  (dict(chain=3, fanout=1, reduce=1, wave=1, indep=1, gather=1, empty=1), (1, 1)),
 }
 
 
-def generate(seed, profile='mixed', name='prog', nk=256, allow=(), tries=40, min_tasks=8, max_tasks=4000):
+def generate(seed, profile='mixed', name='prog', nk=256, allow=(), tries=40, min_tasks=8, max_tasks=4000, key_base=0):
     """-> (Program, Ref, discarded) ; raises ModelError if nothing valid after `tries`"""
     weights, (lo, hi) = PROFILES[profile]
     disc = []
     for t in range(tries):
         g = Gen(seed * 1000 + t, profile, name, nk, set(allow))
+        g.P.next_key = key_base
         r = g.r
         try:
             nm = r.randint(lo, hi)
@@ -284,3 +294,14 @@ def generate(seed, profile='mixed', name='prog', nk=256, allow=(), tries=40, min
         except ModelError as e:
             disc.append(str(e))
     raise ModelError('no valid program after %d tries: %s' % (tries, disc[-3:]))
+
+
+def generate_multi(seed, n, profile='tiny', prefix='m', keys_per_prog=128, **kw):
+    """n programs with disjoint key ranges of one collection of n*keys_per_prog keys -> (progs, refs, discarded)"""
+    progs = []; refs = []; disc = []
+    nk = n * keys_per_prog
+    for i in range(n):
+        P, ref, d = generate(seed * 64 + i, profile, name='%s_%d' % (prefix, i), nk=nk, key_base=i * keys_per_prog, min_tasks=0, max_tasks=600, **kw)
+        if P.next_key > (i + 1) * keys_per_prog: raise ModelError('program overflows its key range')
+        progs.append(P); refs.append(ref); disc += d
+    return progs, refs, disc
